@@ -40,6 +40,15 @@ for d in sorted(glob.glob('/verif/seeded/C*-*')):
     json.dump(meta,open(d+'/meta.json','w'),indent=1)
     print(rows[-1])
 sh('git -C /repo worktree remove --force %s'%WT)
+rows=[]
+for d in sorted(glob.glob('/verif/seeded/C*-*')):
+    meta=json.load(open(d+'/meta.json'))
+    db=meta.get('detected_by') or {}
+    if not isinstance(db,dict): db={}
+    props=db.get('properties',[]); rules=db.get('rules',[]); newu=db.get('new_undecided',[])
+    verdict='DETECTED' if meta['property'] in props else ('detected-by-other' if props else ('UNDECIDED-only' if newu else 'MISSED'))
+    rows.append((os.path.basename(d),meta['property'],verdict,props,','.join(rules)))
 with open('seeded/RESULTS.md','w') as f:
     f.write('# Seeded changes vs checks\n\nEach seed (patch.diff + demo + NOTES.md + meta.json) was written by an independent sub-agent that saw only the property text and a scratch worktree, then confirmed by tools/confirm_seed.py (patch applies, repo builds, demo passes without and fails with the change, existing tests of the touched packages still pass). `tools/seedmatrix.py` checks out the seed\'s base commit in a scratch worktree, runs every check without and with the patch (`amcheck -repo <wt> -listviol`) and reports the obligations that become violated. A seed counts as DETECTED when a rule of the property it breaks fires.\n\n| seed | breaks | verdict | properties with new violations | rules |\n|---|---|---|---|---|\n')
     for r in rows: f.write('| %s | %s | %s | %s | %s |\n'%(r[0],r[1],r[2],' '.join(r[3]),r[4]))
+    f.write(open('/verif/seeded/NOTES.md').read() if os.path.exists('/verif/seeded/NOTES.md') else '')
